@@ -444,7 +444,7 @@ def accessor_observation(r, o, stats):
 
 def run_cases(ctx, runs, chunk=25):
     inp = [to_input(r) for r in runs]
-    outs = run_driver(ctx, "C13", "\n".join(inp) + "\n", timeout=1500)
+    outs = run_driver(ctx, "C13", [l_ + "\n" for l_ in inp], timeout=1500)
     if outs is not None and len(outs) == len(runs) and getattr(ctx, "driver_rc", 0) == 0:
         return outs
     ctx.log("driver batch failed (rc=%s); isolating" % getattr(ctx, "driver_rc", "?"))
